@@ -19,6 +19,7 @@ type groupIn struct {
 	Mode  string
 	Reps  int
 	Files int // fragments are spread over this many files (location order = vertex order)
+	Via   string  // "" = the strategy object directly; "detector" / "detector-lsh" = through a CloneDetector as the service does (SetUseLSH false / true)
 	Twins [][]int // classes of fragments that carry IDENTICAL syntax trees (all other fragments carry pairwise very different trees); empty = no trees at all
 }
 
@@ -83,7 +84,18 @@ func init() {
 			}
 			cfg := analyzer.GroupingConfig{Mode: analyzer.GroupingMode(in.Mode), Threshold: float64(in.Theta) / float64(in.Den), KCoreK: in.K,
 				Type1Threshold: 0.95, Type2Threshold: 0.85, Type3Threshold: 0.75, Type4Threshold: 0.65}
-			groups := analyzer.CreateGroupingStrategy(cfg).GroupClones(pairs)
+			var groups []*analyzer.CloneGroup
+			if in.Via == "" {
+				groups = analyzer.CreateGroupingStrategy(cfg).GroupClones(pairs)
+			} else {
+				// the path the clone service takes: a detector configured with the mode, SetUseLSH as the service decides it, GroupClonePairs
+				dc := analyzer.DefaultCloneDetectorConfig()
+				dc.GroupingMode, dc.GroupingThreshold, dc.KCoreK = cfg.Mode, cfg.Threshold, cfg.KCoreK
+				dc.Type1Threshold, dc.Type2Threshold, dc.Type3Threshold, dc.Type4Threshold = cfg.Type1Threshold, cfg.Type2Threshold, cfg.Type3Threshold, cfg.Type4Threshold
+				det := analyzer.NewCloneDetector(dc)
+				det.SetUseLSH(in.Via == "detector-lsh")
+				groups = det.GroupClonePairs(pairs)
+			}
 			var gs [][]int
 			sizeOK, sortedOK := true, true
 			ids := []int{}
